@@ -16,6 +16,9 @@ ActsHs == {"EphSubst", "AdvAuth", "Reflect"}
 EphAdvRefl == {"adv", "reflect"}
 WOne == {1}
 None == {}
+Both == {"a", "b"}
+OnlyA == {"a"}
+OnlyB == {"b"}
 EphAll == {"adv", "reflect", "unknown", "low"}
 EphAdv == {"adv"}
 =============================================================================
